@@ -3,6 +3,7 @@ package interp
 import (
 	"go/ast"
 	"go/build"
+	"go/build/constraint"
 	"go/parser"
 	"path"
 	"path/filepath"
@@ -18,6 +19,24 @@ func (interp *Interpreter) buildOk(ctx *build.Context, name, src string) (bool, 
 	f, err := parser.ParseFile(interp.fset, name, src, parser.PackageClauseOnly|parser.ParseComments)
 	if err != nil {
 		return false, err
+	}
+	// A //go:build line, if any, is the constraint of the file: the // +build lines are then ignored,
+	// as in go/build.
+	for _, g := range f.Comments {
+		for _, c := range g.List {
+			if !constraint.IsGoBuild(c.Text) {
+				continue
+			}
+			expr, err := constraint.Parse(c.Text)
+			if err != nil {
+				return false, err
+			}
+			if !expr.Eval(func(tag string) bool { return buildTagOk(ctx, tag) }) {
+				return false, nil
+			}
+			setYaegiTags(ctx, f.Comments)
+			return true, nil
+		}
 	}
 	for _, g := range f.Comments {
 		// in file, evaluate the AND of multiple line build constraints
